@@ -28,6 +28,8 @@ open(os.path.join(V, "seeded", "README.md"), "w").write("# Seeded changes (made 
 p = os.path.join(V, "DESIGN.md")
 s = open(p).read()
 if "<!-- SEEDS:BEGIN -->" in s:
-    s = re.sub(r"<!-- SEEDS:BEGIN -->.*<!-- SEEDS:END -->", "<!-- SEEDS:BEGIN -->\n" + table + "<!-- SEEDS:END -->", s, flags=re.S)
+    a = s.index("<!-- SEEDS:BEGIN -->")
+    b = s.index("<!-- SEEDS:END -->")
+    s = s[:a] + "<!-- SEEDS:BEGIN -->\n" + table + s[b:]
     open(p, "w").write(s)
 print(len(rows), "seeds")
